@@ -23,6 +23,10 @@ def run(tier, seed, t0):
     for be, lam in dbg:
         jobs.append(Job("debug-%s-%d" % (be, lam), "drv_c01", "debug", be,
                         ["--seed", seed + 7, "--lambda", lam, "--level", "quick" if thorough else "lite"], timeout=7200))
+    # program start-up: every third job also evaluates all gates from the constructor of a namespace-scope object, before main
+    for i, j in enumerate(jobs):
+        if i % 3 == 0:
+            j.env = dict(j.env, VH_PREMAIN="1")
     for i, j in enumerate(jobs):      # process history: every other native job first generates and uses a custom parameter set
         if j.tool is None and j.driver == "drv_c01" and i % 2 == 0:
             j.args = j.args + ["--prelude", "1"]
